@@ -12,7 +12,8 @@ Every `*_cases(tier, binary, asan=None, ...)` returns (cases, mismatches, tlc_pa
   tlc_parse   merged vlib.parse_tlc() result of the TLC runs (states/distinct summed, violated = first violated)
 `shellquote_cases` and `lexer_cases(..., families=("kw",))` / `lexer_keyword_highbyte_cases` are self-contained so
 that the C17 check can call them."""
-import json, os, random, re, subprocess, sys, tempfile, time, threading
+import json, multiprocessing, os, random, re, subprocess, sys, tempfile, time, threading
+from concurrent.futures import ProcessPoolExecutor
 sys.path.insert(0, os.path.dirname(os.path.abspath(__file__)))
 import vlib
 from vlib import log
@@ -79,6 +80,28 @@ def merge_parse(ps):
         res["states"] += p.get("states") or 0; res["distinct"] += p.get("distinct") or 0
         if p.get("violated") and not res["violated"]: res["violated"] = p["violated"]
     return res
+
+def setstr(xs): return "{%s}" % ",".join(str(x) for x in xs)
+
+def partitions2(alphabet, ngroups2, with_empty=True):
+    """(First, Second) constant pairs that split the strings over `alphabet` on their first two bytes:
+    one group of jobs per first byte, the second bytes dealt into `ngroups2` groups (256 = 'no such byte')"""
+    al = list(alphabet); res = []
+    for ai, a in enumerate(al):
+        seconds = al + [256]
+        k = max(1, min(ngroups2, len(seconds)))
+        for gi in range(k):
+            first = [a] + ([256] if with_empty and ai == 0 and gi == 0 else [])
+            res.append((setstr(first), setstr(seconds[gi::k])))
+    return res
+
+def pool_map(fn, jobs, n=None):
+    """run top-level function `fn` over `jobs` in forked worker processes (TLC run + JSON parsing + comparison per job:
+    the Python share is not negligible, threads would serialise it)"""
+    if not jobs: return []
+    n = min(n or vlib.NCPU, len(jobs))
+    with ProcessPoolExecutor(max_workers=n, mp_context=multiprocessing.get_context("fork")) as ex:
+        return list(ex.map(fn, jobs))
 
 def partitions(alphabet, n, with_empty=True):
     """split the first-byte set into at most n groups (the empty buffer, coded 256, goes into the first)"""
@@ -197,33 +220,33 @@ def _lex_compare(cases, binary, asan, bad, summary):
         if any(b >= 128 for b in c["i"]): summary.add("with_high_byte")
     if not summary.samples: summary.samples = cases[:2] + cases[-1:]
 
+def _job_lex(args):
+    consts, binary, asan = args
+    cases, p, out = tlc_cases("NinjaLex.tla", "NinjaLex.cfg", consts)
+    mine = []; s = Cases()
+    if p["violated"]:
+        mine.append(dict(kind="spec", fingerprint="spec NinjaLex %s" % p["violated"], what="invariant %s of NinjaLex.tla violated: %s" % (p["violated"], out[-600:])))
+    for i in range(0, len(cases), 100000): _lex_compare(cases[i:i + 100000], binary, asan, mine, s)
+    return mine[:2000], s, p
+
+LEX_DEEP = [36, 32, 12, 10, 13, 97, 255]      # the bytes the lexer's special cases are about: $ blank formfeed LF CR letter 0xFF
 def lexer_cases(tier, binary, asan=None, families=("all", "kw"), maxlen=None):
     """Ninja lexer in its four modes against spec/fn/NinjaLex.tla.
-    family "all": every buffer up to MaxLen over the 12-byte format alphabet; "kw": keyword spellings +-1 char in contexts"""
+    family "all": every buffer up to MaxLen over the 12-byte format alphabet (quick 4, thorough 6), and two bytes deeper over
+    the 7 bytes the lexer's special cases are about; "kw": keyword spellings +-1 char in contexts"""
     if maxlen is None: maxlen = 4 if tier == "quick" else 6
     jobs = []
     if "all" in families:
-        # length <= maxlen exhaustively; partitioned on the first byte so that the JVMs run in parallel
-        for part in partitions(LEX_ALPHABET, 12 if tier == "quick" else 12):
-            jobs.append(dict(MaxLen=maxlen, First=part, Family='"all"'))
-        if tier == "quick":
-            # one level deeper over the bytes the special cases are about ($, blank, formfeed, newline, CR, a letter, 0xFF)
-            for part in partitions([36, 32, 12, 10, 13, 97, 255], 7, with_empty=False):
-                jobs.append(dict(MaxLen=maxlen + 2, First=part, Family='"all"', Alphabet="{36,32,12,10,13,97,255}"))
+        for f, g in partitions2(LEX_ALPHABET, 1 if maxlen <= 4 else 13):
+            jobs.append(dict(MaxLen=maxlen, First=f, Second=g, Family='"all"'))
+        deep = maxlen + 2 if maxlen <= 4 else maxlen + 1
+        for f, g in partitions2(LEX_DEEP, 1 if deep <= 6 else 8, with_empty=False):
+            jobs.append(dict(MaxLen=maxlen + 2, First=f, Second=g, Family='"all"', Alphabet=setstr(LEX_DEEP)))
     if "kw" in families:
         jobs.append(dict(MaxLen=0, Family='"kw"'))
-    bad = []; summary = Cases(); ps = []; lock = threading.Lock()
-    def job(consts):
-        cases, p, out = tlc_cases("NinjaLex.tla", "NinjaLex.cfg", consts)
-        mine = []; s = Cases()
-        if p["violated"]:
-            mine.append(dict(kind="spec", fingerprint="spec NinjaLex %s" % p["violated"], what="invariant %s of NinjaLex.tla violated: %s" % (p["violated"], out[-600:])))
-        # split large partitions so that a driver input stays moderate
-        for i in range(0, len(cases), 200000):
-            _lex_compare(cases[i:i + 200000], binary, asan, mine, s)
-        with lock:
-            bad.extend(mine); summary.merge(s); ps.append(p)
-    vlib.parallel(job, jobs, n=min(len(jobs), vlib.NCPU))
+    bad = []; summary = Cases(); ps = []
+    for mine, s, p in pool_map(_job_lex, [(j, binary, asan) for j in jobs]):
+        bad.extend(mine); summary.merge(s); ps.append(p)
     return summary, bad, merge_parse(ps)
 
 def lexer_keyword_highbyte_cases(tier, binary, asan=None):
@@ -275,24 +298,35 @@ def _md_compare(cases, binary, asan, bad, summary):
     summary.nontrivial += sum(1 for c in cases if len(c["ev0"]) > 0)
     if len(summary.samples) < 3: summary.samples += cases[:1] + cases[-1:]
 
-def makedeps_cases(tier, binary, asan=None, families=("all", "render"), maxlen=None, pathlen=None):
-    """MakefileDepsParser against spec/fn/MakeDeps.tla: raw strings over the format alphabet, and rendered rule lists"""
-    if maxlen is None: maxlen = 5 if tier == "quick" else 7
-    if pathlen is None: pathlen = 2 if tier == "quick" else 2
+def _job_md(args):
+    consts, binary, asan = args
+    cases, p, out = tlc_cases("MakeDeps.tla", "MakeDeps.cfg", consts)
+    mine = []; s = Cases()
+    if p["violated"]:
+        mine.append(dict(kind="spec", fingerprint="spec MakeDeps %s" % p["violated"], what="invariant %s of MakeDeps.tla violated: %s" % (p["violated"], out[-600:])))
+    for i in range(0, len(cases), 50000): _md_compare(cases[i:i + 50000], binary, asan, mine, s)
+    return mine[:2000], s, p
+
+MD_DEEP = [97, 32, 92, 58, 10, 36]           # letter, blank, backslash, colon, newline, dollar
+MD_PATH_FIRST = [97, 32, 35, 36, 92, 47]     # first bytes of rendered paths (a ':' cannot start a path)
+def makedeps_cases(tier, binary, asan=None, families=("all", "render"), maxlen=None, deplen=None):
+    """MakefileDepsParser against spec/fn/MakeDeps.tla: raw strings over the 10-byte format alphabet (quick <= 5, thorough <= 6,
+    plus <= maxlen + 2 over 6 of the bytes), and rendered rule lists (RoundTrip) with paths <= 2 (first prerequisite <= 3 in thorough)"""
+    if maxlen is None: maxlen = 5 if tier == "quick" else 6
+    if deplen is None: deplen = 2 if tier == "quick" else 3
     jobs = []
     if "all" in families:
-        for part in partitions(MD_ALPHABET, 10): jobs.append(dict(MaxLen=maxlen, First=part, Family='"all"'))
+        for f, g in partitions2(MD_ALPHABET, 1 if maxlen <= 5 else 11):
+            jobs.append(dict(MaxLen=maxlen, First=f, Second=g, Family='"all"'))
+        if tier != "quick":
+            for f, g in partitions2(MD_DEEP, 7, with_empty=False):
+                jobs.append(dict(MaxLen=maxlen + 2, First=f, Second=g, Family='"all"', Alphabet=setstr(MD_DEEP)))
     if "render" in families:
-        for part in partitions([97, 32, 35, 36, 92, 47], 6, with_empty=False): jobs.append(dict(MaxLen=0, First=part, Family='"render"', PathLen=pathlen))
-    bad = []; summary = Cases(); ps = []; lock = threading.Lock()
-    def job(consts):
-        cases, p, out = tlc_cases("MakeDeps.tla", "MakeDeps.cfg", consts)
-        mine = []; s = Cases()
-        if p["violated"]:
-            mine.append(dict(kind="spec", fingerprint="spec MakeDeps %s" % p["violated"], what="invariant %s of MakeDeps.tla violated: %s" % (p["violated"], out[-600:])))
-        for i in range(0, len(cases), 100000): _md_compare(cases[i:i + 100000], binary, asan, mine, s)
-        with lock: bad.extend(mine); summary.merge(s); ps.append(p)
-    vlib.parallel(job, jobs, n=min(len(jobs), vlib.NCPU))
+        for f, g in partitions2(MD_PATH_FIRST, 1 if deplen <= 2 else 7, with_empty=False):
+            jobs.append(dict(MaxLen=0, First=f, Second=g, Family='"render"', PathLen=2, DepLen=deplen))
+    bad = []; summary = Cases(); ps = []
+    for mine, s, p in pool_map(_job_md, [(j, binary, asan) for j in jobs]):
+        bad.extend(mine); summary.merge(s); ps.append(p)
     return summary, bad, merge_parse(ps)
 
 # ----------------------------------------------------------------------------- dependency-info files
@@ -323,18 +357,22 @@ def _di_compare(cases, binary, asan, bad, summary):
     summary.nontrivial += sum(1 for c in cases if c["cls"] == "wf")
     if len(summary.samples) < 3: summary.samples += [c for c in cases if c["cls"] == "wf"][:1] + cases[-1:]
 
+def _job_di(args):
+    consts, binary, asan = args
+    cases, p, out = tlc_cases("DepInfo.tla", "DepInfo.cfg", consts)
+    mine = []; s = Cases()
+    if p["violated"]: mine.append(dict(kind="spec", fingerprint="spec DepInfo %s" % p["violated"], what="invariant %s of DepInfo.tla violated: %s" % (p["violated"], out[-600:])))
+    for i in range(0, len(cases), 100000): _di_compare(cases[i:i + 100000], binary, asan, mine, s)
+    return mine[:2000], s, p
+
 def depinfo_cases(tier, binary, asan=None, maxlen=None):
-    """DependencyInfoParser against spec/fn/DepInfo.tla: every byte string up to MaxLen over {opcodes, NUL, 'a', 0x7F}"""
+    """DependencyInfoParser against spec/fn/DepInfo.tla: every byte string up to MaxLen (quick 6, thorough 8) over
+    {NUL/version, the three other opcodes, an unknown opcode 0x7F, 'a'}"""
     if maxlen is None: maxlen = 6 if tier == "quick" else 8
-    bad = []; summary = Cases(); ps = []; lock = threading.Lock()
-    def job(part):
-        cases, p, out = tlc_cases("DepInfo.tla", "DepInfo.cfg", dict(MaxLen=maxlen, First=part))
-        mine = []; s = Cases()
-        if p["violated"]: mine.append(dict(kind="spec", fingerprint="spec DepInfo %s" % p["violated"], what="invariant %s of DepInfo.tla violated: %s" % (p["violated"], out[-600:])))
-        for i in range(0, len(cases), 200000): _di_compare(cases[i:i + 200000], binary, asan, mine, s)
-        with lock: bad.extend(mine); ps.append(p); summary.merge(s)
-    parts = partitions(DI_ALPHABET, 6)
-    vlib.parallel(job, parts, n=len(parts))
+    bad = []; summary = Cases(); ps = []
+    jobs = [(dict(MaxLen=maxlen, First=part), binary, asan) for part in partitions(DI_ALPHABET, 6)]
+    for mine, s, p in pool_map(_job_di, jobs):
+        bad.extend(mine); summary.merge(s); ps.append(p)
     return summary, bad, merge_parse(ps)
 
 # ----------------------------------------------------------------------------- shell quoting (C17)
@@ -395,23 +433,26 @@ def _sq_judge(strings, expected_q, binary, asan, bad, workdir, summary):
     summary.n += len(strings); summary.add("bytes_differ_from_spec", differ)
     summary.nontrivial += sum(1 for q, s in zip(quoted, [strings[k] for k in idx]) if q != s)
 
+def _job_sq(args):
+    consts, binary, asan, workdir = args
+    cases, p, out = tlc_cases("ShellQuote.tla", "ShellQuote.cfg", consts)
+    mine = []; s = Cases()
+    if p["violated"]: mine.append(dict(kind="spec", fingerprint="spec ShellQuote %s" % p["violated"], what="invariant %s of ShellQuote.tla violated (the intended quoting does not round-trip through the shell model): %s" % (p["violated"], out[-600:])))
+    for i in range(0, len(cases), 50000):
+        ch = cases[i:i + 50000]
+        _sq_judge([bytes(c["i"]) for c in ch], [bytes(c["q"]) for c in ch], binary, asan, mine, workdir, s)
+    s.samples = cases[:1] + cases[-1:]
+    return mine[:2000], s, p
+
 def shellquote_cases(tier, binary, asan=None, maxlen=None, workdir=None):
     """shellEscaped against spec/fn/ShellQuote.tla; every output is also evaluated by the real /bin/sh.
-    Domain: strings up to MaxLen over 17 shell-special bytes (TLC), plus every string of length <= 2 over the bytes 1..255"""
+    Domain: strings up to MaxLen (quick 4, thorough 5) over 17 shell-special bytes (TLC), plus every string of length <= 2 over the bytes 1..255"""
     if maxlen is None: maxlen = 4 if tier == "quick" else 5
     workdir = workdir or vlib.scratch("shq_%d" % os.getpid())
-    bad = []; summary = Cases(); ps = []; lock = threading.Lock()
-    def job(part):
-        cases, p, out = tlc_cases("ShellQuote.tla", "ShellQuote.cfg", dict(MaxLen=maxlen, First=part))
-        mine = []; s = Cases()
-        if p["violated"]: mine.append(dict(kind="spec", fingerprint="spec ShellQuote %s" % p["violated"], what="invariant %s of ShellQuote.tla violated (the intended quoting does not round-trip through the shell model): %s" % (p["violated"], out[-600:])))
-        for i in range(0, len(cases), 100000):
-            ch = cases[i:i + 100000]
-            _sq_judge([bytes(c["i"]) for c in ch], [bytes(c["q"]) for c in ch], binary, asan, mine, workdir, s)
-        with lock: bad.extend(mine); ps.append(p); summary.merge(s)
-        if len(summary.samples) < 3: summary.samples += cases[:1] + cases[-1:]
-    parts = partitions(SQ_ALPHABET, 16)
-    vlib.parallel(job, parts, n=len(parts))
+    bad = []; summary = Cases(); ps = []
+    jobs = [(dict(MaxLen=maxlen, First=part), binary, asan, workdir) for part in partitions(SQ_ALPHABET, 17)]
+    for mine, s, p in pool_map(_job_sq, jobs):
+        bad.extend(mine); summary.merge(s); ps.append(p)
     # every 1- and 2-byte string (no NUL): a whitelist widened by ANY character is seen by the real shell
     full = [bytes([a]) for a in range(1, 256)] + [bytes([a, b]) for a in range(1, 256) for b in range(1, 256) if a < 128 or b < 128]
     s2 = Cases(); _sq_judge(full, None, binary, None, bad, workdir, s2)
